@@ -160,6 +160,7 @@ type state struct {
 	bind    map[ssa.Value]ssa.Value // parameters and free variables of inlined frames
 	facts   map[ssa.Value]*fact
 	loads   map[string]ssa.Value // canonical load per field address (value numbering)
+	lens    map[string]ssa.Value // canonical len(x) per slice/string value
 	events  []Event
 	blocks  []*ssa.BasicBlock
 	blockEv []int
@@ -173,6 +174,7 @@ func (st *state) clone() *state {
 		bind:    make(map[ssa.Value]ssa.Value, len(st.bind)),
 		facts:   make(map[ssa.Value]*fact, len(st.facts)),
 		loads:   make(map[string]ssa.Value, len(st.loads)),
+		lens:    make(map[string]ssa.Value, len(st.lens)),
 		events:  append([]Event(nil), st.events...),
 		blocks:  append([]*ssa.BasicBlock(nil), st.blocks...),
 		blockEv: append([]int(nil), st.blockEv...),
@@ -188,6 +190,9 @@ func (st *state) clone() *state {
 	}
 	for k, v := range st.loads {
 		n.loads[k] = v
+	}
+	for k, v := range st.lens {
+		n.lens[k] = v
 	}
 	for k, v := range st.facts {
 		c := *v
@@ -246,7 +251,7 @@ func Enumerate(fn *ssa.Function, cfg Config, visit func(*Path)) (Stats, error) {
 		}
 		done[b] = true
 		en.start = b
-		st := &state{phi: map[*ssa.Phi]ssa.Value{}, mem: map[ssa.Value]ssa.Value{}, bind: map[ssa.Value]ssa.Value{}, facts: map[ssa.Value]*fact{}, loads: map[string]ssa.Value{}}
+		st := &state{phi: map[*ssa.Phi]ssa.Value{}, mem: map[ssa.Value]ssa.Value{}, bind: map[ssa.Value]ssa.Value{}, facts: map[ssa.Value]*fact{}, loads: map[string]ssa.Value{}, lens: map[string]ssa.Value{}}
 		st.fr = &frame{fn: fn, seen: map[*ssa.BasicBlock]bool{}}
 		if b != fn.Blocks[0] {
 			// A segment that starts at a loop header inherits the defers
@@ -360,6 +365,19 @@ func (en *enum) instrs(st *state, b *ssa.BasicBlock, from int) {
 		case *ssa.Call:
 			if _, builtin := ins.Call.Value.(*ssa.Builtin); !builtin && len(st.loads) > 0 && !pureCall(&ins.Call) {
 				st.loads = map[string]ssa.Value{}
+			}
+			if bl, ok := ins.Call.Value.(*ssa.Builtin); ok && bl.Name() == "len" && len(ins.Call.Args) == 1 {
+				// len of a slice or string VALUE is a pure function of that value
+				arg := st.resolve(ins.Call.Args[0])
+				switch arg.Type().Underlying().(type) {
+				case *types.Slice, *types.Basic:
+					k := "len#" + arg.Name() + "#" + fmt.Sprintf("%p", arg)
+					if prev, ok := st.lens[k]; ok {
+						st.bind[ins] = prev
+					} else if _, isConst := arg.(*ssa.Const); !isConst {
+						st.lens[k] = ins
+					}
+				}
 			}
 			ev := en.callEvent(st, KCall, ins, &ins.Call)
 			ev.Result = ins
